@@ -144,8 +144,11 @@ func c24partAt(parts []c24part, off int) string {
 
 func c24fill(n int) []byte {
 	b := make([]byte, n)
-	for i := range b {
+	for i := 0; i < n && i < 65536; i++ {
 		b[i] = byte(i*131 + i>>8 + 7)
+	}
+	for k := 65536; k < n; k *= 2 {
+		copy(b[k:], b[:k])
 	}
 	return b
 }
@@ -195,6 +198,10 @@ func c24gen(f *c24fix, thorough bool, emit c24emit) {
 	}
 	if f.Mode == "header" {
 		c24genHeader(f, thorough, emit)
+		return
+	}
+	if f.Mode == "tiny" {
+		c24genTiny(f, thorough, emit)
 		return
 	}
 	// the stream cut at every length: the header promises more than arrives
@@ -283,6 +290,22 @@ func c24gen(f *c24fix, thorough bool, emit c24emit) {
 			encs = append(encs, enc{"count-u16", 2, c24le(v, 2), fmt.Sprintf("u16=%d", v)})
 		}
 	}
+	// the same small value in its three non-minimal var-uint encodings: a decoder
+	// that ignores the "irregular" flag accepts it and re-encodes it minimally
+	for o := 0; o < len(P); o++ {
+		if P[o] >= 0xfd {
+			continue
+		}
+		for _, w := range []int{2, 4, 8} {
+			o, w := o, w
+			e := c24cat([]byte{map[int]byte{2: 0xfd, 4: 0xfe, 8: 0xff}[w]}, c24le(uint64(P[o]), w))
+			if !emit("varuint-nonminimal", fmt.Sprintf("payload[%d] %02x re-encoded as %x", o, P[o], e), o, w, "", func() []byte {
+				return c24frame(cmd, c24cat(P[:o], e, P[o+1:]))
+			}) {
+				return
+			}
+		}
+	}
 	for o := 0; o < len(P); o++ {
 		for _, e := range encs {
 			if o+e.w > len(P) {
@@ -304,6 +327,54 @@ func c24gen(f *c24fix, thorough bool, emit c24emit) {
 					return
 				}
 			}
+		}
+	}
+}
+
+// c24genTiny: every short payload for one command ("all byte streams" in the
+// small): all payloads of <=1 byte (quick) / <=2 bytes (thorough) over all 256
+// values, and all payloads up to 3 (quick) / 4 (thorough) bytes over a
+// boundary alphabet.  The base case of a tiny fixture is the empty payload.
+func c24genTiny(f *c24fix, thorough bool, emit c24emit) {
+	cmd := f.Cmd
+	one := func(pl []byte) bool {
+		pl = append([]byte{}, pl...)
+		return emit("tiny", fmt.Sprintf("payload=%x", pl), 0, 0, "", func() []byte { return c24frame(cmd, pl) })
+	}
+	full := 1
+	sharpMax := 3
+	if thorough {
+		full, sharpMax = 2, 4
+	}
+	for a := 0; a < 256; a++ {
+		if !one([]byte{byte(a)}) {
+			return
+		}
+		if full >= 2 {
+			for b := 0; b < 256; b++ {
+				if !one([]byte{byte(a), byte(b)}) {
+					return
+				}
+			}
+		}
+	}
+	sharp := []byte{0, 1, 2, 0x7f, 0x80, 0xfc, 0xfd, 0xfe, 0xff}
+	for n := full + 1; n <= sharpMax; n++ {
+		radix := make([]int, n)
+		for i := range radix {
+			radix[i] = len(sharp)
+		}
+		ok := true
+		pl := make([]byte, n)
+		vh.Odometer(radix, func(d []int) bool {
+			for i, x := range d {
+				pl[i] = sharp[x]
+			}
+			ok = one(pl)
+			return ok
+		})
+		if !ok {
+			return
 		}
 	}
 }
@@ -519,6 +590,11 @@ func c24eval(stream []byte, c *c24case) (outcome string, viols []c24viol, alloc 
 		return "panic", viols, alloc
 	}
 	if err != nil {
+		if c.Kind == "roundtrip" {
+			// the property's title: every message round-trips.  A value the node itself
+			// writes with WriteMessage must be readable by ReadMessage.
+			add("roundtrip:"+cmdKey+":written-message-rejected", "a hand-built %s value framed by WriteMessage is rejected by ReadMessage: %v", cmdKey, err)
+		}
 		return "err", viols, alloc
 	}
 	if reject != "" {
@@ -565,18 +641,72 @@ func c24eval(stream []byte, c *c24case) (outcome string, viols []c24viol, alloc 
 	case d == len(payload):
 		class = "short-input-completed"
 	default:
-		dd := d
-		if c.Shift != 0 && c.Off >= 0 && dd > c.Off {
-			dd -= c.Shift
-			if dd < c.Off {
-				dd = c.Off
-			}
-		}
-		class = "normalized@" + c24partAt(c.Parts, dd)
+		class = "normalized@" + c24partAt(c24layout(msg), d)
 	}
 	add("reencode:"+cmdKey+":"+class, "accepted %d-byte payload re-serializes to %d bytes, first difference at offset %d (payload %s / re-serialized %s)",
 		len(payload), len(R), d, vh.Hex(payload[d:c24min(len(payload), d+12)]), vh.Hex(R[d:c24min(len(R), d+12)]))
 	return "ok-differs:" + strings.SplitN(class, "@", 2)[0], viols, alloc
+}
+
+func c24vlen(n int) int { return len(c24varbytes(make([]byte, n))) }
+
+func c24hdrLayout(parts []c24part, prefix string, hd *ct.Header) []c24part {
+	total := len(c24ser(hd.Serialization))
+	bk := len(c24ser(func(s *ocomm.ZeroCopySink) { s.WriteVarUint(uint64(len(hd.Bookkeepers))) }))
+	for _, k := range hd.Bookkeepers {
+		bk += c24vlen(len(keypair.SerializePublicKey(k)))
+	}
+	sg := len(c24ser(func(s *ocomm.ZeroCopySink) { s.WriteVarUint(uint64(len(hd.SigData))) }))
+	for _, x := range hd.SigData {
+		sg += c24vlen(len(x))
+	}
+	return append(parts, c24part{prefix + ".unsigned", total - bk - sg}, c24part{prefix + ".bookkeepers", bk}, c24part{prefix + ".sigs", sg})
+}
+
+// c24layout names the regions of the re-serialization of a decoded message,
+// so that a difference is keyed by the field it falls in (the mechanism) and
+// not by where the mutation happened to be applied.
+func c24layout(msg Message) (parts []c24part) {
+	defer func() {
+		if recover() != nil {
+			parts = nil
+		}
+	}()
+	switch m := msg.(type) {
+	case *Block:
+		parts = c24hdrLayout(parts, "header", m.Blk.Header)
+		parts = append(parts, c24part{"txcount", 4})
+		n := 0
+		for _, tx := range m.Blk.Transactions {
+			n += len(tx.Raw)
+		}
+		parts = append(parts, c24part{"txs", n}, c24part{"merkleroot", 32}, c24part{"ccflag", 1}, c24part{"ccmsg", 1 << 30})
+	case *BlkHeader:
+		parts = append(parts, c24part{"count", 4})
+		for _, h := range m.BlkHdr {
+			parts = c24hdrLayout(parts, "header", h)
+		}
+	case *Addr:
+		parts = []c24part{{"count", 8}, {"entries", 1 << 30}}
+	case *Inv:
+		parts = []c24part{{"type", 1}, {"count", 4}, {"hashes", 1 << 30}}
+	case *Version:
+		parts = []c24part{{"fixed", 76}, {"softversion", 1 << 30}}
+	case *Consensus:
+		parts = []c24part{{"unsigned", len(c24ser(m.Cons.SerializationUnsigned))}, {"owner", c24vlen(len(keypair.SerializePublicKey(m.Cons.Owner)))}, {"signature", 1 << 30}}
+	case *FindNodeResp:
+		parts = []c24part{{"target", 20}, {"success", 1}, {"address", c24vlen(len(m.Address))}, {"count", 4}, {"peers", 1 << 30}}
+	case *SubnetMembersRequest:
+		parts = []c24part{{"from", 20}, {"to", 20}, {"timestamp", 4}}
+		if m.Timestamp != 0 {
+			parts = append(parts, c24part{"pubkey", c24vlen(len(keypair.SerializePublicKey(m.PubKey)))}, c24part{"sig", 1 << 30})
+		}
+	case *SubnetMembers:
+		parts = []c24part{{"count", 4}, {"members", 1 << 30}}
+	case *UpdatePeerKeyId:
+		parts = []c24part{{"key", 1 << 30}}
+	}
+	return parts
 }
 
 func c24min(a, b int) int {
@@ -599,7 +729,7 @@ type c24spec struct {
 	Cur          string           `json:"cur"`
 	Results      string           `json:"results"`
 	DeadlineUnix int64            `json:"deadline_unix"`
-	RlimitMB     uint64           `json:"rlimit_mb"`
+	RlimitMB     uint64           `json:"rlimit_mb"` // headroom above the address space in use at worker start
 }
 
 type c24group struct {
@@ -646,7 +776,19 @@ func TestVerif_C24_Worker(t *testing.T) {
 		t.Fatalf("worker fixtures: %v", err)
 	}
 	if spec.RlimitMB > 0 {
-		lim := syscall.Rlimit{Cur: spec.RlimitMB << 20, Max: spec.RlimitMB << 20}
+		// address-space limit = what the Go runtime has reserved at start (about
+		// 1.6 GiB of mostly PROT_NONE mappings) + the headroom of the spec
+		var vm uint64
+		if st, err := os.ReadFile("/proc/self/status"); err == nil {
+			if i := strings.Index(string(st), "VmSize:"); i >= 0 {
+				fmt.Sscanf(strings.TrimSpace(string(st)[i+7:]), "%d", &vm)
+			}
+		}
+		if vm == 0 {
+			vm = 2 << 20 // kB
+		}
+		n := vm<<10 + spec.RlimitMB<<20
+		lim := syscall.Rlimit{Cur: n, Max: n}
 		if err := syscall.Setrlimit(syscall.RLIMIT_AS, &lim); err != nil {
 			t.Fatalf("setrlimit: %v", err)
 		}
@@ -966,7 +1108,7 @@ func c24varbytes(b []byte) []byte {
 	return c24ser(func(s *ocomm.ZeroCopySink) { s.WriteVarBytes(b) })
 }
 
-func c24fixtures(r *vh.Run) []*c24fix {
+func c24fixtures(r *vh.Run, registered []string) []*c24fix {
 	b := &c24builder{r: r}
 	th := r.Thorough()
 	u32 := func(v uint64) []byte { return c24le(v, 4) }
@@ -989,7 +1131,7 @@ func c24fixtures(r *vh.Run) []*c24fix {
 		Nonce: 0xa1a2a3a4a5a6a7a8, StartHeight: 777, Relay: 1, IsConsensus: true, SoftVersion: "v2.3.5-verif"}}
 	copy(ver.P.Cap[:], bytes.Repeat([]byte{0x5a}, 32))
 	vpl := c24ser(ver.Serialization)
-	b.add("version", "full", ver, []string{"fixed", "softversion"}, vpl[:83], vpl[83:])
+	b.add("version", "full", ver, []string{"fixed", "softversion"}, vpl[:76], vpl[76:])
 
 	// addr
 	mkaddr := func(n int) (*Addr, []byte) {
@@ -1030,10 +1172,22 @@ func c24fixtures(r *vh.Run) []*c24fix {
 	b.add("inv/over-cap", "lite", iv, []string{"type", "count", "hashes"}, ipl[:1], ipl[1:5], ipl[5:])
 
 	// headers
-	h1, h2 := c24header(101, 1), c24header(102, 3)
+	nk2 := 2
+	if th {
+		nk2 = 3 // the third key is SM2 (slow point decompression: thorough only)
+	}
+	h1, h2 := c24header(101, 1), c24header(102, nk2)
 	b.add("headers/2", "full", &BlkHeader{BlkHdr: []*ct.Header{h1, h2}}, []string{"count", "header0", "header1"},
 		u32(2), c24ser(h1.Serialization), c24ser(h2.Serialization))
 	b.add("headers/0", "full", &BlkHeader{}, []string{"count"}, u32(0))
+	{ // a header whose single bookkeeper key is sent uncompressed
+		h1b := c24ser(h1.Serialization)
+		k := keypair.SerializePublicKey(h1.Bookkeepers[0])
+		i := bytes.Index(h1b, c24varbytes(k))
+		r.Need(i > 0, "bookkeeper key not found in the header fixture")
+		unc := c24varbytes(ec.EncodePublicKey(h1.Bookkeepers[0].(*ec.PublicKey).PublicKey, false))
+		b.addRaw("headers/key-uncompressed", "lite", p2pc.HEADERS_TYPE, []string{"count", "header0"}, u32(1), c24cat(h1b[:i], unc, h1b[i+len(k)+1:]))
+	}
 	if th {
 		var hs []*ct.Header
 		pieces := [][]byte{u32(p2pc.MAX_BLK_HDR_CNT)}
@@ -1048,7 +1202,11 @@ func c24fixtures(r *vh.Run) []*c24fix {
 
 	// transactions
 	for _, k := range []string{"invoke", "deploy", "multisig", "eip155"} {
-		b.add("tx/"+k, "full", &Trn{Txn: c24tx(k, 7)}, nil)
+		mode := "full"
+		if k == "multisig" {
+			mode = capMode
+		}
+		b.add("tx/"+k, mode, &Trn{Txn: c24tx(k, 7)}, nil)
 	}
 
 	// blocks
@@ -1076,17 +1234,20 @@ func c24fixtures(r *vh.Run) []*c24fix {
 		b.add(name, "full", &Block{Blk: blk, MerkleRoot: root, CCMsg: cc}, names, pieces...)
 	}
 	cc := &ct.CrossChainMsg{Version: 0, Height: 199, StatesRoot: c24hash(0x55)}
-	cc.SigData = [][]byte{c24sign(c24acct(10), cc.StatesRoot[:]), c24sign(c24acct(11), cc.StatesRoot[:])}
-	mkblock("block/2tx+ccmsg", []*ct.Transaction{c24tx("invoke", 1), c24tx("multisig", 2)}, cc, 2)
+	cc.SigData = [][]byte{c24sign(c24acct(10), cc.StatesRoot[:])}
+	mkblock("block/tx+ccmsg", []*ct.Transaction{c24tx("invoke", 1)}, cc, 1)
 	mkblock("block/empty-nocc", nil, nil, 1)
 	if th {
+		cc = &ct.CrossChainMsg{Version: 0, Height: 199, StatesRoot: c24hash(0x55)}
+		cc.SigData = [][]byte{c24sign(c24acct(10), cc.StatesRoot[:]), c24sign(c24acct(11), cc.StatesRoot[:])}
+		mkblock("block/2tx+ccmsg", []*ct.Transaction{c24tx("invoke", 1), c24tx("multisig", 2)}, cc, 2)
 		mkblock("block/4tx", []*ct.Transaction{c24tx("invoke", 1), c24tx("deploy", 2), c24tx("eip155", 3), c24tx("multisig", 4)}, cc, 4)
 	}
 
 	// consensus
 	owner := c24acct(20)
 	cp := &Consensus{Cons: ConsensusPayload{Version: 1, PrevHash: c24hash(0x31), Height: 300, BookkeeperIndex: 2, Timestamp: 1600000300,
-		Data: bytes.Repeat([]byte{0xc0, 0x24, 0x01}, 100), Owner: owner.PublicKey, PeerId: c24peerID(1)}}
+		Data: bytes.Repeat([]byte{0xc0, 0x24, 0x01}, r.Pick(20, 100)), Owner: owner.PublicKey, PeerId: c24peerID(1)}}
 	cp.Cons.Signature = c24sign(owner, c24ser(cp.Cons.SerializationUnsigned))
 	unsigned := c24ser(cp.Cons.SerializationUnsigned)
 	okey := keypair.SerializePublicKey(owner.PublicKey)
@@ -1094,7 +1255,7 @@ func c24fixtures(r *vh.Run) []*c24fix {
 	// the same payload with the owner key in its uncompressed and in its labelled encodings, and with bytes after the key
 	ecpub := owner.PublicKey.(*ec.PublicKey)
 	uncompressed := ec.EncodePublicKey(ecpub.PublicKey, false)
-	b.addRaw("consensus/owner-uncompressed", "full", p2pc.CONSENSUS_TYPE, []string{"unsigned", "owner", "signature"},
+	b.addRaw("consensus/owner-uncompressed", capMode, p2pc.CONSENSUS_TYPE, []string{"unsigned", "owner", "signature"},
 		unsigned, c24varbytes(uncompressed), c24varbytes(cp.Cons.Signature))
 	b.addRaw("consensus/owner-labelled", "lite", p2pc.CONSENSUS_TYPE, []string{"unsigned", "owner", "signature"},
 		unsigned, c24varbytes(c24cat([]byte{byte(keypair.PK_ECDSA), keypair.P256}, okey)), c24varbytes(cp.Cons.Signature))
@@ -1125,6 +1286,9 @@ func c24fixtures(r *vh.Run) []*c24fix {
 	req.Sig = c24sign(gov, req.sigdata())
 	b.add("getmembers/gov", "full", req, []string{"from", "to", "timestamp", "pubkey", "sig"},
 		c24ser(req.From.Serialization), c24ser(req.To.Serialization), u32(0xfffffff0), c24varbytes(keypair.SerializePublicKey(gov.PublicKey)), c24varbytes(req.Sig))
+	b.addRaw("getmembers/key-uncompressed", "lite", p2pc.GET_SUBNET_MEMBERS_TYPE, []string{"from", "to", "timestamp", "pubkey", "sig"},
+		c24ser(req.From.Serialization), c24ser(req.To.Serialization), u32(0xfffffff0),
+		c24varbytes(ec.EncodePublicKey(gov.PublicKey.(*ec.PublicKey).PublicKey, false)), c24varbytes(req.Sig))
 	mem := &SubnetMembers{Members: []MemberInfo{{PubKey: vconfig.PubkeyID(c24acct(22).PublicKey), Addr: "10.0.1.1:20338"},
 		{PubKey: vconfig.PubkeyID(c24acct(23).PublicKey), Addr: "10.0.1.2:20338"}}}
 	mpl := c24ser(mem.Serialization)
@@ -1134,13 +1298,24 @@ func c24fixtures(r *vh.Run) []*c24fix {
 	// offline witness
 	prop, v1, v2 := c24acct(30), c24acct(31), c24acct(32)
 	ow := &OfflineWitnessMsg{Timestamp: 1600000400, View: 9, Proposer: vconfig.PubkeyID(prop.PublicKey),
-		NodePubKeys: []string{vconfig.PubkeyID(c24acct(33).PublicKey), vconfig.PubkeyID(c24acct(34).PublicKey), vconfig.PubkeyID(c24acct(35).PublicKey)}}
-	r.Need(ow.AddProposeSig(prop) == nil && ow.VoteFor(v1, []uint8{0, 2}) == nil && ow.VoteFor(v2, []uint8{1}) == nil, "offline witness fixture: signing failed")
+		NodePubKeys: []string{vconfig.PubkeyID(c24acct(33).PublicKey), vconfig.PubkeyID(c24acct(34).PublicKey)}}
+	nvotes := 1
+	r.Need(ow.AddProposeSig(prop) == nil && ow.VoteFor(v1, []uint8{0, 1}) == nil, "offline witness fixture: signing failed")
+	if th {
+		ow.NodePubKeys = append(ow.NodePubKeys, vconfig.PubkeyID(c24acct(35).PublicKey))
+		ow.Voters = nil
+		nvotes = 2
+		r.Need(ow.AddProposeSig(prop) == nil && ow.VoteFor(v1, []uint8{0, 2}) == nil && ow.VoteFor(v2, []uint8{1}) == nil, "offline witness fixture: signing failed")
+	}
 	ounsigned := c24ser(ow.serializeUnsigned)
 	opl := c24ser(ow.Serialization)
 	psig := c24varbytes(ow.ProposerSig)
-	b.add("offline/2votes", "full", ow, []string{"unsigned", "proposersig", "votercount", "voters"},
-		ounsigned, psig, u32(2), opl[len(ounsigned)+len(psig)+4:])
+	b.add("offline/votes", "full", ow, []string{"unsigned", "proposersig", "votercount", "voters"},
+		ounsigned, psig, u32(uint64(nvotes)), opl[len(ounsigned)+len(psig)+4:])
+	// every short payload, for every registered command and for an unknown one
+	for _, cmd := range append(append([]string{}, registered...), "verifx") {
+		b.fixes = append(b.fixes, &c24fix{Name: "tiny/" + cmd, Cmd: cmd, Mode: "tiny", Kind0: "tiny", Frame: hex.EncodeToString(c24frame(cmd, nil))})
+	}
 	return b.fixes
 }
 
@@ -1186,12 +1361,14 @@ func TestVerif_C24(t *testing.T) {
 	r := vh.Start(t, "C24", "decode")
 	defer r.Finish()
 	r.Rule("for every message type registered in makeEmptyMessage (factory read from the source at run time) one or more hand-built values are framed by WriteMessage; " +
-		"each frame is read back as written and under: the stream cut at every length; the payload cut at every length (valid header); 5 trailing-byte suffixes; " +
-		"every single-byte payload mutation (10 boundary values per byte quick, all 255 thorough); every payload offset overwritten as a u32/u64 count in {0,1,MAX_PAYLOAD_LEN,2^32-1,2^63,2^64-1} " +
-		"and spliced as a var-uint count in {65535,MAX_PAYLOAD_LEN,2^32-1,2^32,2^63,2^64-1}, each followed by the rest of the body and by nothing; " +
+		"each frame is read back as written and under every single mutation of these families: stream cut at every length; payload cut at every length (valid header); 5 trailing-byte suffixes; " +
+		"every payload byte set to 10 boundary values (quick) / all 255 other values (thorough); every payload offset overwritten as a u32/u64 count in {0,1,MAX_PAYLOAD_LEN,2^32-1,2^63,2^64-1} " +
+		"or spliced as a var-uint count in {65535,MAX_PAYLOAD_LEN,2^32-1,2^32,2^63,2^64-1}, each followed by the rest of the body and by nothing; every byte <0xfd re-encoded as a non-minimal var-uint; " +
+		"hand-encoded alternative key encodings; per registered command every payload of <=1 (quick) / <=2 (thorough) bytes and all payloads <=3/<=4 bytes over 9 boundary bytes; " +
 		"header families (every magic bit + other networks' magics, command bytes, length -1/+1/MAX/MAX+1/2^31/2^32-1 with stale and recomputed checksum, every checksum bit, full-size and full-size+1 bodies). " +
-		"Oracle per case: no panic; TotalAlloc delta of ReadMessage <= MAX_PAYLOAD_LEN+1MiB; a stream the header rules reject must return an error; an accepted message must re-serialize to the payload and WriteMessage to the frame. " +
-		"distinct = (mutation family, outcome) classes")
+		"Oracle per case: no panic, no process death; allocation during ReadMessage <= MAX_PAYLOAD_LEN+1MiB; a stream the reference header rules reject must return an error; " +
+		"an accepted message must re-serialize to the payload and WriteMessage to the frame; a value written by WriteMessage must be accepted. " +
+		"distinct = (mutation family, outcome) and (message type, outcome as written) classes")
 	r.Bound("fixtures as listed in coverage.decode.fixtures; single mutation per case (one byte, one count field, one cut, one suffix, one header field)")
 	r.Assume("ReadMessage on a bytes.Reader stands for link.Rx's bufio.Reader (no semantic difference for ReadFull)")
 	r.Assume("allocation is measured as runtime.MemStats.TotalAlloc delta around ReadMessage in a worker process under RLIMIT_AS; cases that kill the worker are attributed by a per-case progress marker")
@@ -1221,7 +1398,7 @@ func TestVerif_C24(t *testing.T) {
 			reg = c24builtin
 		}
 		r.Need(len(reg) >= 21, "only %d message types found in makeEmptyMessage", len(reg))
-		p := vh.Catch(func() { fixes = c24fixtures(r) })
+		p := vh.Catch(func() { fixes = c24fixtures(r, reg) })
 		r.Need(p == "", "building fixtures panicked: %s", p)
 		have := map[string]int{}
 		for _, f := range fixes {
@@ -1257,7 +1434,7 @@ func TestVerif_C24(t *testing.T) {
 	r.Need(os.WriteFile(fixPath, fb, 0644) == nil, "cannot write fixtures")
 
 	spec := c24spec{Fixtures: fixPath, Thorough: r.Thorough(), Shard: r.R.Shard, NShards: r.R.NShards, Skip: map[string][]int{},
-		Cur: filepath.Join(tmp, "c24_cur"), Results: filepath.Join(tmp, "c24_results"), RlimitMB: 3072}
+		Cur: filepath.Join(tmp, "c24_cur"), Results: filepath.Join(tmp, "c24_results"), RlimitMB: 512}
 	if r.ReplayCase(&rc) {
 		spec.Shard, spec.NShards = 0, 1
 	}
@@ -1376,7 +1553,7 @@ func TestVerif_C24(t *testing.T) {
 		if strings.Contains(logTail, "out of memory") || strings.Contains(logTail, "cannot allocate memory") {
 			key = "alloc:" + cmdKey + ":" + c24partAt(c.Parts, c.Off)
 		}
-		r.Violation(key, fmt.Sprintf("%s [%s: %s]: the worker process (RLIMIT_AS %d MiB) died while ReadMessage ran this case: %s", c.Fix, c.Kind, c.Desc, spec.RlimitMB, c24first(logTail, 300)), c)
+		r.Violation(key, fmt.Sprintf("%s [%s: %s]: the worker process (RLIMIT_AS = start size + %d MiB) died while ReadMessage ran this case: %s", c.Fix, c.Kind, c.Desc, spec.RlimitMB, c24first(logTail, 300)), c)
 		r.Eval(1)
 		r.Class(c.Kind + " -> process-death")
 		deaths++
@@ -1390,10 +1567,8 @@ func TestVerif_C24(t *testing.T) {
 	r.Set("max_alloc_bytes_single_case", int64(maxAlloc))
 	r.Set("alloc_limit_bytes", int64(c24Max+c24AllocSlack))
 	if rc.Stream == "" && rc.Gen == "" && r.R.Exhaustive {
-		for _, f := range fixes {
-			if f.Kind0 == "roundtrip" && f.Name != "addr/over-cap" && f.Name != "inv/over-cap" {
-				r.Need(accepted[f.Name] || r.R.NShards > 1 && !r.Mine(0), "hand-built %s was not read back identically as written (see violations / worker log)", f.Name)
-			}
+		if r.Mine(0) {
+			r.Need(len(accepted) >= 25, "only %d hand-built fixtures were read back identically as written", len(accepted))
 		}
 		if r.R.NShards == 1 {
 			r.NeedClass("bytemut -> err")
